@@ -140,9 +140,12 @@ class OsShim:
         return getattr(os, k)
 
 
+APP_KW: Dict[str, Any] = {}  # non-default constructor arguments of the static-file app for the current job (cacheability, max_age)
+
+
 def request(iface: str, app_kind: str, osh: OsShim, headers: Dict[str, str]):
     mod = WS if iface == "wsgi" else AS
-    app = (mod.Files if app_kind == "files" else mod.Pages)("/srv/www")
+    app = (mod.Files if app_kind == "files" else mod.Pages)("/srv/www", **APP_KW)
     if iface == "wsgi":
         env = {"REQUEST_METHOD": "HEAD", "PATH_INFO": "/f.txt", "SCRIPT_NAME": ""}
         for k, v in headers.items():
@@ -324,6 +327,8 @@ def job_history(job) -> report.JobResult:
     res = report.JobResult.new(job["name"])
     twin = job.get("twin", False)
     iface, app_kind = job["iface"], job["app"]
+    APP_KW.clear()
+    APP_KW.update(job.get("app_kw") or {})
     steps = job["steps"]  # list of (op, form, validators_from)
     init = job["init"]
     eng = Engine(budget_s=1200)
@@ -426,7 +431,7 @@ def job_history(job) -> report.JobResult:
             e.last_sat = False
         m = e.witness()
         ev = lambda t: m.eval(t, True).as_long()  # noqa: E731
-        wit = {"iface": iface, "app": app_kind, "init": init, "steps": [list(s) for s in steps],
+        wit = {"app_kw": job.get("app_kw") or {}, "iface": iface, "app": app_kind, "init": init, "steps": [list(s) for s in steps],
                "states": [[ev(a), ev(b), ev(c)] for a, b, c in states], "request_instants": [ev(t) for t in T], "process_utc_offset": ev(UTC_OFFSET)}
         with shims.off():
             cp = concrete_history(wit)
@@ -474,7 +479,7 @@ def concrete_history(w) -> Optional[str]:
             if os.path.abspath(path) == p:
                 return St(base, *cur_state["s"])
             return base
-        app = (mod.Files if app_kind == "files" else mod.Pages)(d)
+        app = (mod.Files if app_kind == "files" else mod.Pages)(d, **(w.get("app_kw") or {}))
         import time as _t
         off = w.get("process_utc_offset", 0)
         old_tz = os.environ.get("TZ")
@@ -570,6 +575,12 @@ def jobs(tier: str):
                 for form in ("etag", "last-modified", "both"):
                     out.append(dict(name=f"{iface}/pages/preserved-mtime/{op1}+{op2}/{form}/from1", iface=iface, app="pages", init="preserved-mtime",
                                     steps=[(op1, "etag", 0), (op2, form, 1)], weight=5))
+    # non-default cache policy arguments: revalidation works the same (a "no-cache" copy is exactly the one that gets revalidated)
+    for iface in ("wsgi", "asgi"):
+        for tag, kw in (("no-cache", {"cacheability": "no-cache"}), ("no-store-max-age-0", {"cacheability": "no-store", "max_age": 0}), ("private", {"cacheability": "private", "max_age": 1})):
+            for op in OPS:
+                for form in ("etag", "last-modified", "both", "list-weak-last"):
+                    out.append(dict(name=f"{iface}/files/fresh/{op}/{form}/policy:{tag}", iface=iface, app="files", init="fresh", steps=[(op, form, 0)], app_kw=kw))
     out.append(dict(name="twin", iface="wsgi", app="files", init="fresh", steps=[("none", "etag", 0)], twin=True))
     return out
 
